@@ -362,6 +362,7 @@ impl<'p> Worker<'p> {
             "clause": clause,
             "detail": detail,
             "shrunk": shrunk,
+            "gen_version": super::CURRENT_GEN_VERSION,
             "rendered": rendered,
         });
         match id {
@@ -395,7 +396,7 @@ pub fn worker_main(prop: &dyn Property, tier: Tier, seed: u64, w: usize, n: usiz
             if st.more_failures.len() < 40 {
                 st.more_failures.push(json!({
                     "property": prop.id(), "tier": tier.name(), "clause": clause, "detail": detail, "shrunk": false,
-                    "rendered": r, "kind": "enum", "index": idx,
+                    "gen_version": super::CURRENT_GEN_VERSION, "rendered": r, "kind": "enum", "index": idx,
                 }));
             }
         }
@@ -483,6 +484,7 @@ pub fn run_replay_value(prop: &dyn Property, v: &Value, strict: bool) -> Verdict
 }
 
 pub fn run_replay_value_rendered(prop: &dyn Property, v: &Value, strict: bool) -> (Verdict, Option<Value>) {
+    super::set_gen_version(v["gen_version"].as_u64().unwrap_or(1) as u32);
     let tier = Tier::parse(v["tier"].as_str().unwrap_or("quick"));
     let known = std::sync::Arc::new(if strict { HashSet::new() } else { known_set(prop.id()) });
     let mut ctx = CaseCtx::new(tier, strict, known);
@@ -860,7 +862,7 @@ pub fn check_main(prop: &dyn Property, tier: Tier, seed: u64) -> i32 {
                     None => format!("exit {}", s.code().unwrap_or(-1)),
                 };
                 let cur = std::fs::read(out.with_extension("cur")).unwrap_or_default();
-                let mut rv = json!({"property": id, "tier": tier.name(), "clause": format!("process-death|{}", how),
+                let mut rv = json!({"property": id, "tier": tier.name(), "gen_version": super::CURRENT_GEN_VERSION, "clause": format!("process-death|{}", how),
                     "detail": "worker process died while running this case", "shrunk": false});
                 if cur.len() >= 5 {
                     let len = u32::from_le_bytes([cur[1], cur[2], cur[3], cur[4]]) as usize;
